@@ -17,6 +17,7 @@ static std::vector<App> g_apps;
 static MemoryLeakDetector* g_det = NULL;
 static char* g_base = NULL;
 static long g_cap = 0;
+static long g_top = 0;      // the write limit of a fresh buffer
 static int (*real_vsnprintf)(char*, size_t, const char*, va_list) = NULL;
 
 static int watching_vsnprintf(char* str, size_t size, const char* format, va_list args)
@@ -64,6 +65,7 @@ int main(int argc, char** argv)
     FILE* out = fopen(argv[2], "w");
     if (!in || !out) return 2;
     vh_install(out);
+    setvbuf(out, NULL, _IOLBF, 0);      // a sanitizer abort does not flush stdio: every completed call must already be in the log
     real_vsnprintf = PlatformSpecificVSNprintf;
     PlatformSpecificVSNprintf = watching_vsnprintf;
 
@@ -72,6 +74,7 @@ int main(int argc, char** argv)
     g_det = new MemoryLeakDetector(qf);
     g_cap = (long) SimpleStringBuffer::SIMPLE_STRING_BUFFER_LEN;
     g_base = g_det->verifBuffer().toString();
+    g_top = (long) g_det->verifBuffer().verifLimit();
     std::vector<Out> outs;
     static char bogus[16];
     std::string line;
@@ -143,7 +146,7 @@ int main(int argc, char** argv)
         // appends made while the leaks are listed (limit lowered) come by the thousand: contiguous untruncated ones are
         // added up (off, size of the first; sum of the returned lengths) -- the same thing for a bounded append
         std::vector<App> apps;
-        long top = g_cap - 1;
+        long top = g_top;
         for (size_t i = 0; i < g_apps.size(); i++) {
             const App& a = g_apps[i];
             if (isreport && apps.size() > 1) {          // (the report header stays by itself)
